@@ -278,3 +278,7 @@ Print Assumptions c02_exact_on_update_and_merge_partial.
 Theorem c02_update_merge_unguarded_refuted : ~ lemma_B_dml_unguarded.
 Proof. exact lemma_B_dml_unguarded_refuted. Qed.
 Print Assumptions c02_update_merge_unguarded_refuted.
+
+(** MERGE with a derived-table source (Tree/LemmaBDmlDerived.v): proved on the model side (model_pairs_merge_derived); the equation
+    with the specification is PARTIAL - it takes the semantic side conditions of the one-derived-table theorem as hypotheses *)
+(* see Tree/LemmaBDmlDerived.v: model_pairs_merge_derived, lemma_B_merge_derived_partial, merge_derived_missing_col_refuted, merge_derived_star_refuted *)
